@@ -956,10 +956,7 @@ def eval_dyad_split(a, b, backend):
         if a[0] >= len(b):
             r = [b]
         else:
-            k = len(b) // a[0]
-            if (k*a[0]) < len(b):
-                k += 1
-            r = bknp.array_split(b, k)
+            r = [b[q:q+a[0]] for q in range(0, len(b), a[0])]
     else:
         p, q = 0, 0
         r = []
